@@ -373,13 +373,15 @@ def expected_mcs(rec):
 RES_ATTRS = ('chain', 'resid', 'resname', 'insertion_code')
 
 
-def judge(case, which):
+def judge(case, which, processor=None):
     mol, records, link = build(case, which)
+    if processor is None:
+        processor = RepairGraph(include_graph=case['include_graph'])
     n_before = len(mol)
     before_nodes = {k: dict(mol.nodes[k]) for k in mol.nodes}
     before_edges = {frozenset(e) for e in mol.edges}
     with capture_logs() as logs:
-        out = RepairGraph(include_graph=case['include_graph']).run_molecule(mol)
+        out = processor.run_molecule(mol)
     label = 'presentation %d' % which
     # the input molecule itself is not to be modified (run_molecule works on a copy)
     if len(mol) != n_before or {frozenset(e) for e in mol.edges} != before_edges:
@@ -505,8 +507,10 @@ def _changes(spec, pres):
 
 
 def run(case):
-    first = judge(case, 0)
-    second = judge(case, 1)
+    # both presentations go through one processor object: nothing may be carried over from one molecule to the next
+    processor = RepairGraph(include_graph=case['include_graph'])
+    first = judge(case, 0, processor)
+    second = judge(case, 1, processor)
     for ridx, (a, b) in enumerate(zip(first, second)):
         if a['flagged'] != b['flagged'] or a['added'] != b['added']:
             raise Violation('presentation-dependent', 'residue %d: %d flagged / %d rebuilt in one presentation, %d / %d in the other' % (
